@@ -34,15 +34,18 @@ package processor
 // state at the head of the iteration, delta the entry's age read in this iteration.
 //@ pred exhausted(s *vaaState) = (s.ourMsg != nil && s.retryCount >= 14400) || (s.ourMsg == nil && s.retryCount >= 10)
 //@ func (p *Processor) handleCleanup(ctx context.Context)
-//@   props C14 C13
+//@   props C14 C13 C01
 //@   requires Inv(p)
+//@   requires InvSig(p)
 //@   ensures [inv-shape] InvShape(p)
+//@   ensures [inv-sig] InvSig(p)
 //@   ensures [processor-fields] unchanged("Processor.*")
 //@   modifies *
 //@   nopanic C13
 //@   replay processor_history_cleanup_nogs.go.tmpl
 //@   loop [range p.state.vaaSignatures]:
 //@     invariant [inv] Inv(p)
+//@     invariant [inv-sig] InvSig(p)
 //@     invariant [processor-fields] unchanged("Processor.*")
 //@     invariant [self] p.state == atEntry(p.state) && p.state.vaaSignatures == atEntry(p.state.vaaSignatures) && p.db == atEntry(p.db)
 //@     iter-ensures [removed-only-if] !indom(p.state.vaaSignatures, hash) ==>
@@ -101,8 +104,28 @@ package processor
 //@   modifies chan:[]byte, fresh lib:bytes.Buffer.b
 //@   nopanic C13
 
+// accepted(p, m): the observation carries a signature over m.Hash that recovers to the
+// address it claims, and that address is a key of the applicable guardian set (the entry's
+// snapshot if the node has observed the message, else the current set).
+//@ pure entryOf(p *Processor, m *gossipv1.SignedObservation) = p.state.vaaSignatures[hexs(m.Hash)]
+//@ pure gsFor(p *Processor, m *gossipv1.SignedObservation) = (indom(p.state.vaaSignatures, hexs(m.Hash)) && entryOf(p, m).gs != nil ? entryOf(p, m).gs : p.gs)
+//@ pred accepted(p *Processor, m *gossipv1.SignedObservation) = len(m.Hash) == 32 && len(m.Signature) == 65 && ecrec_ok(from32(m.Hash), from65(m.Signature))
+//@   | && vaa.pk2addr(ecrec(from32(m.Hash), from65(m.Signature))) == b2a(m.Addr)
+//@   | && gsFor(p, m) != nil && (exists n in 0..len(gsFor(p, m).Keys) :: gsFor(p, m).Keys[n] == b2a(m.Addr))
+// signedBy(p, m): number of keys of the applicable set whose signature is recorded for m's digest
+//@ pure signedBy(p *Processor, m *gossipv1.SignedObservation, gs *common.GuardianSet) = cntKeys(domOf(entryOf(p, m).signatures), gs.Keys, len(gs.Keys))
+
 //@ func (p *Processor) handleObservation(ctx context.Context, m *gossipv1.SignedObservation)
-//@   props C13 C01
+//@   props C13 C01 C02 C03
+//@   ensures [frame-on-reject] !old(accepted(p, m)) ==> unchanged("vaaState.*") && unchanged("map[string]*vaaState") && unchanged("map[ethcommon.Address][]byte") && unchanged("chan") && storeUnchanged(p.db)
+//@   ensures [entry-on-accept] old(accepted(p, m)) ==> indom(p.state.vaaSignatures, hexs(m.Hash))
+//@   ensures [recorded-on-accept] old(accepted(p, m)) ==> indom(entryOf(p, m).signatures, b2a(m.Addr))
+//@   ensures [recorded-bytes] old(accepted(p, m)) ==> entryOf(p, m).signatures[b2a(m.Addr)] == m.Signature
+//@   ensures [publish-iff] old(accepted(p, m)) && old(indom(p.state.vaaSignatures, hexs(m.Hash))) ==> ((nsent(p.sendC) == old(nsent(p.sendC)) + 1) <==> (old(entryOf(p, m).ourVAA) != nil && !old(entryOf(p, m).submitted) && signedBy(p, m, old(gsFor(p, m))) >= 2*len(old(gsFor(p, m)).Keys)/3 + 1))
+//@   ensures [publish-marks-submitted] nsent(p.sendC) != old(nsent(p.sendC)) ==> nsent(p.sendC) == old(nsent(p.sendC)) + 1 && entryOf(p, m).submitted
+//@   ensures [never-for-unobserved] (!old(indom(p.state.vaaSignatures, hexs(m.Hash))) || old(entryOf(p, m).ourVAA) == nil) ==> nsent(p.sendC) == old(nsent(p.sendC)) && storeUnchanged(p.db)
+//@   ensures [once] old(indom(p.state.vaaSignatures, hexs(m.Hash))) && old(entryOf(p, m).submitted) ==> nsent(p.sendC) == old(nsent(p.sendC)) && storeUnchanged(p.db)
+//@   at [signed.Marshal()]: assert [body-is-own] signed.Version == v.Version && signed.GuardianSetIndex == v.GuardianSetIndex && vaa.bodyOf(signed) == vaa.bodyOf(v) && v == p.state.vaaSignatures[hash].ourVAA
 //@   requires Inv(p) && m != nil
 //@   requires InvSig(p)
 //@   ensures [inv-shape] InvShape(p)
@@ -117,33 +140,49 @@ package processor
 //@     invariant [sigs] len(sigs) <= $i && (forall k in 0..len(sigs) :: sigs[k] != nil && allocated(sigs[k]))
 //@     invariant [sigs-from-set] forall k in 0..len(sigs) :: 0 <= int(sigs[k].Index) && int(sigs[k].Index) < $i && indom(p.state.vaaSignatures[hash].signatures, gs.Keys[int(sigs[k].Index)]) && sigs[k].Signature == from65(p.state.vaaSignatures[hash].signatures[gs.Keys[int(sigs[k].Index)]])
 //@     invariant [sigs-ascending] forall a in 0..len(sigs) :: forall b in 0..len(sigs) :: a < b ==> int(sigs[a].Index) < int(sigs[b].Index)
+//@     invariant [sigs-count] len(sigs) == cntKeys(domOf(p.state.vaaSignatures[hash].signatures), gs.Keys, $i)
 
 //@ func (p *Processor) broadcastSignature(v *vaa.VAA, signature []byte, txhash []byte)
-//@   props C13
+//@   props C13 C01 C02
+//@   ensures [records-own-observation] indom(p.state.vaaSignatures, hexs(bytes32(vaa.digestOf(v)))) && p.state.vaaSignatures[hexs(bytes32(vaa.digestOf(v)))].ourVAA == v && p.state.vaaSignatures[hexs(bytes32(vaa.digestOf(v)))].gs == p.gs && p.state.vaaSignatures[hexs(bytes32(vaa.digestOf(v)))].ourMsg != nil
+//@   ensures [broadcasts-observation] nsent(p.sendC) == old(nsent(p.sendC)) + 1
+//@   ensures [never-stores] storeUnchanged(p.db)
 //@   requires Inv(p) && v != nil
+//@   requires InvSig(p)
 //@   ensures [inv-shape] InvShape(p)
+//@   ensures [inv-sig] InvSig(p)
 //@   ensures [processor-fields] unchanged("Processor.*")
 //@   modifies *
 //@   nopanic C13
 
 //@ func (p *Processor) handleMessage(ctx context.Context, k *common.MessagePublication)
-//@   props C13
+//@   props C13 C01 C02
+//@   ensures [governance-never-signed] old(k.EmitterAddress == p.governanceEmitterAddress && k.EmitterChain == p.governanceChainId) ==> unchanged("chan") && unchanged("vaaState.*") && unchanged("map[string]*vaaState")
+//@   ensures [dropped-without-set] old(p.gs) == nil ==> unchanged("chan") && unchanged("vaaState.*") && unchanged("map[string]*vaaState")
+//@   ensures [never-stores] storeUnchanged(p.db)
+//@   at [p.broadcastSignature(v, s, k.TxHash.Bytes())]: assert [deterministic-vaa] v.Version == 1 && v.GuardianSetIndex == p.gs.Index && len(v.Signatures) == 0 && v.Timestamp == k.Timestamp && v.Nonce == k.Nonce && v.EmitterChain == k.EmitterChain && v.TargetChain == k.TargetChain && v.EmitterAddress == k.EmitterAddress && v.Payload == k.Payload && v.Sequence == k.Sequence && v.ConsistencyLevel == k.ConsistencyLevel
+//@   at [p.broadcastSignature(v, s, k.TxHash.Bytes())]: assert [signs-own-digest] len(s) == 65 && ecrec_ok(vaa.digestOf(v), from65(s))
 //@   requires Inv(p) && k != nil
+//@   requires InvSig(p)
 //@   ensures [inv-shape] InvShape(p)
+//@   ensures [inv-sig] InvSig(p)
 //@   ensures [processor-fields] unchanged("Processor.*")
 //@   modifies *
 //@   nopanic C13
 
 //@ func (p *Processor) handleInjection(ctx context.Context, v *vaa.VAA)
-//@   props C13
+//@   props C13 C01
 //@   requires Inv(p) && v != nil
+//@   requires InvSig(p)
 //@   ensures [inv-shape] InvShape(p)
+//@   ensures [inv-sig] InvSig(p)
 //@   ensures [processor-fields] unchanged("Processor.*")
 //@   modifies *
 //@   nopanic C13
 
 //@ func (p *Processor) handleInboundSignedVAAWithQuorum(ctx context.Context, m *gossipv1.SignedVAAWithQuorum)
-//@   props C13 C01
+//@   props C13 C01 C02
+//@   ensures [never-publishes] unchanged("chan") && unchanged("vaaState.*") && unchanged("map[string]*vaaState")
 //@   requires Inv(p) && m != nil
 //@   requires InvSig(p)
 //@   ensures [inv-shape] InvShape(p)
@@ -158,10 +197,11 @@ package processor
 // guardian-set updates, injections and ticks" is "Inv is preserved by every handler from
 // every state satisfying it, under nondeterministic choice of the next event".
 //@ func (p *Processor) Run(ctx context.Context) (err error)
-//@   props C13
-//@   requires Inv(p) && p.gst != nil
+//@   props C13 C01
+//@   requires Inv(p) && p.gst != nil && InvSig(p)
 //@   modifies *
 //@   nopanic C13
 //@   at [p.gs = <-p.setC]: assume-env [set-from-chain] wfGS(p.gs)
 //@   loop [for]:
 //@     invariant [inv] Inv(p) && p.gst != nil && p.cleanup != nil
+//@     invariant [inv-sig] InvSig(p)
